@@ -774,13 +774,14 @@ def elem_scalar(v, dtype):
 class TArr:
     """1-D/2-D array with symbolic extents: `term` is a z3 Array (Int[, Int] -> Real|Int|Bool)."""
 
-    __slots__ = ("term", "shape", "dtype", "slice_of")
+    __slots__ = ("term", "shape", "dtype", "slice_of", "gather_of")
 
     def __init__(self, term, shape, dtype):
         self.term = term
         self.shape = tuple(shape)
         self.dtype = _np.dtype(dtype)
         self.slice_of = None      # (base array term, lo, hi) when this is a 1-D slice base[lo:hi] (kept for sums)
+        self.gather_of = None     # (array term, index array term) when this is array[index array]
 
     @property
     def ndim(self):
